@@ -405,6 +405,13 @@ Proof.
   intros A B C R S T l1 l2 l3 H H1; revert l3. induction H1; intros l3 H2; inversion H2; subst; constructor; eauto.
 Qed.
 
+Lemma Forall2_in_l : forall A B (R : A -> B -> Prop) l l' x, Forall2 R l l' -> In x l -> exists y, In y l' /\ R x y.
+Proof.
+  intros A B R l l' x H; induction H as [|a b l l' Hab _ IH]; intros Hin; [destruct Hin|].
+  destruct Hin as [->|Hin]; [exists b; split; [now left|assumption]|].
+  destruct (IH Hin) as [y [Hy Hr]]. exists y. split; [now right|assumption].
+Qed.
+
 Lemma Forall2_refl_on : forall A (R : A -> A -> Prop) l, (forall a, R a a) -> Forall2 R l l.
 Proof. induction l; constructor; auto. Qed.
 
@@ -619,10 +626,7 @@ Section Composition.
       assert (Hp : tpath (a_target a) id = path) by (unfold tpath; now rewrite Einj).
       assert (Hex : exists t2, In t2 tgts2 /\ t2 = (id, path, snd t2) /\
                  file_content (a_flags a) src (a_ids a) id (start_content (a_flags a) fs0 path) = COk (snd t2)).
-      { clear - HF Hin Hp. induction HF as [|id0 t2 l l2 [Ht Hc] _ IH]; [destruct Hin|].
-        destruct Hin as [->|Hin].
-        - exists t2. rewrite Hp in *. split; [now left|]. split; assumption.
-        - destruct (IH Hin) as [t [H1 H2]]. exists t. split; [now right|exact H2]. }
+      { destruct (Forall2_in_l _ _ _ _ _ id HF Hin) as [t2 [Hin2 [Ht Hc]]]. rewrite Hp in *. eauto. }
       destruct Hex as [t2 [Hin2 [Ht2 Hc2]]]. exists path, (snd t2). split; [reflexivity|]. split; [exact Hc2|].
       apply (write_back_lookup tgts2 fs1 id).
       + rewrite Hpaths. apply NoDup_map_inj_on; [exact End|]. now apply tpath_inj_on.
@@ -630,7 +634,7 @@ Section Composition.
     - intros q Hnot.
       assert (Hq' : ~ In q (map (tpath (a_target a)) (a_ids a))).
       { intros Hin. apply in_map_iff in Hin. destruct Hin as [id [Hid Hin]]. apply (Hnot id Hin).
-        unfold tpath in Hid. destruct (inject (a_target a) id); [congruence|now apply Hall in Hin]. }
+        unfold tpath in Hid. destruct (inject (a_target a) id) eqn:E; [congruence|exfalso; exact (Hall id Hin E)]. }
       rewrite write_back_other by (now rewrite Hpaths). now apply Hq.
   Qed.
 
